@@ -129,6 +129,6 @@ func TestC15(t *testing.T) {
 			"skipped as unspecified: creating a child over an existing plain parent, writing child data of an extended store for a parent that has none, deleting a plain parent through the child store",
 		},
 		Gen: genC15, Run: runC15,
-		QuickChecks: 500, ThoroughFactor: 20,
+		QuickChecks: 1000, ThoroughFactor: 10,
 	})
 }
